@@ -113,6 +113,9 @@ EXPORT errno_t _strnset_s_chk(char *restrict dest, rsize_t dmax, int value, rsiz
         dest++;
     }
 #ifdef SAFECLIB_STR_NULL_SLACK
+    /* the rest of a longer string stays; the slack starts behind its NUL */
+    while ((rsize_t)(dest - orig_dest) < dmax && *dest)
+        dest++;
     /* null slack to clear any data */
     if ((rsize_t)(dest - orig_dest) < dmax && !*dest)
         memset(dest, 0, dmax - (dest - orig_dest));
